@@ -87,6 +87,19 @@ def _raw(spec):
         lab = rng.randint(0, shape[-2], size=shape[:-2] + (1,) + shape[-1:])
         np.put_along_axis(a, lab, 1.0, axis=-2)
         a = a / a.sum(axis=-2, keepdims=True)
+    elif kind == 'onehot':
+        # hard one-hot affiliation (a class may be absent in a slice)
+        a = np.zeros(shape)
+        lab = rng.randint(0, shape[-2], size=shape[:-2] + (1,) + shape[-1:])
+        np.put_along_axis(a, lab, 1.0, axis=-2)
+    elif kind == 'uniform_zeros':
+        # non-negative weights with exact zeros (whole slices may be zero)
+        a = rng.uniform(float(spec.get('low', 0.0)),
+                        float(spec.get('high', 1.0)), size=shape)
+        a[rng.uniform(size=shape) < float(spec.get('p', 0.3))] = 0.0
+        if len(shape) > 1 and rng.uniform() < 0.3:
+            a[0] = 0.0
+            a[0][..., 0] = 1.0
     elif kind == 'uniform':
         a = rng.uniform(float(spec.get('low', 0.0)),
                         float(spec.get('high', 1.0)), size=shape)
@@ -103,6 +116,10 @@ def _raw(spec):
         lab = rng.randint(0, shape[-2], size=shape[:-2] + (1,) + shape[-1:])
         np.put_along_axis(a, lab, True, axis=-2)
         a[..., :, 0] = True
+        if spec.get('class_off') and len(shape) > 2:
+            # one source is switched off in a whole leading slice
+            a[0, 0, :] = False
+            a[0, 1, :] = True
     elif kind == 'hpd':
         # Hermitian positive definite (..., D, D)
         D = shape[-1]
